@@ -29,6 +29,57 @@ fn strip_ref(e: &syn::Expr) -> &syn::Expr {
     }
 }
 
+/// `u64::MAX`, `i32::MIN`, `u32::BITS`, `u64::max_value` …: (literal, type)
+pub fn int_assoc_const(path: &str) -> Option<(String, IntTy)> {
+    let (t, c) = path.split_once("::")?;
+    let ty = IntTy::from_name(t)?;
+    let bits = ty.bits();
+    // 2^k as a decimal string (k <= 128)
+    let pow2 = |k: u32| -> String {
+        let mut d: Vec<u8> = vec![1];
+        for _ in 0..k {
+            let mut carry = 0u8;
+            for x in d.iter_mut() {
+                let v = *x * 2 + carry;
+                *x = v % 10;
+                carry = v / 10;
+            }
+            if carry > 0 {
+                d.push(carry);
+            }
+        }
+        d.iter().rev().map(|x| (b'0' + x) as char).collect()
+    };
+    let dec = |s: String| -> String {
+        // s - 1 for a positive decimal string
+        let mut d: Vec<u8> = s.bytes().map(|b| b - b'0').collect();
+        let mut i = d.len();
+        loop {
+            i -= 1;
+            if d[i] > 0 {
+                d[i] -= 1;
+                break;
+            }
+            d[i] = 9;
+        }
+        let t: String = d.iter().map(|x| (b'0' + x) as char).collect();
+        let t = t.trim_start_matches('0').to_string();
+        if t.is_empty() {
+            "0".into()
+        } else {
+            t
+        }
+    };
+    match c {
+        "MAX" | "max_value" => Some((dec(pow2(if ty.signed() { bits - 1 } else { bits })), ty)),
+        "MIN" | "min_value" => {
+            Some((if ty.signed() { format!("(-{})", pow2(bits - 1)) } else { "0".into() }, ty))
+        }
+        "BITS" => Some((bits.to_string(), IntTy::U32)),
+        _ => None,
+    }
+}
+
 fn path_str(p: &syn::Path) -> String {
     p.segments.iter().map(|s| s.ident.to_string()).collect::<Vec<_>>().join("::")
 }
@@ -63,6 +114,11 @@ impl<'a> Cx<'a> {
                 let s = path_str(&p.path);
                 if let Some(c) = s.strip_prefix("F::").or(s.strip_prefix("Self::")) {
                     return self.g.float_consts.get(c).map(|t| Ty::Int(*t));
+                }
+                if !s.ends_with("_value") {
+                    if let Some((_, t)) = int_assoc_const(&s) {
+                        return Some(Ty::Int(t));
+                    }
                 }
                 None
             }
@@ -123,6 +179,9 @@ impl<'a> Cx<'a> {
                         "F::from_bits" | "F::from_u64" | "F::pow_fast_path" | "Self::from_bits"
                         | "Self::from_u64" | "Self::pow_fast_path" => return Some(Ty::Float),
                         "int_pow_fast_path" => return Some(U64),
+                        _ if s.ends_with("_value") && c.args.is_empty() && int_assoc_const(&s).is_some() => {
+                            return int_assoc_const(&s).map(|x| Ty::Int(x.1))
+                        }
                         "Some" => {
                             return c.args.first().and_then(|a| self.ty_of(a)).map(|t| Ty::Opt(Box::new(t)))
                         }
@@ -348,6 +407,11 @@ impl<'a> Cx<'a> {
             if let Some(t) = self.g.float_consts.get(c) {
                 self.needs.f = true;
                 return Ok(Val::new(format!("({} f)", c), Ty::Int(*t)));
+            }
+        }
+        if !s.ends_with("_value") {
+            if let Some((lit, t)) = int_assoc_const(&s) {
+                return Ok(Val::new(lit, Ty::Int(t)));
             }
         }
         match s.as_str() {
@@ -678,6 +742,11 @@ impl<'a> Cx<'a> {
             return err(sp, format!("`{}` is not callable", s));
         }
         let usize_t = Ty::Int(IntTy::Usize);
+        if s.ends_with("_value") && args.is_empty() {
+            if let Some((lit, t)) = int_assoc_const(&s) {
+                return Ok(Val::new(lit, Ty::Int(t)));
+            }
+        }
         match s.as_str() {
             "Some" => {
                 let ex = match expected {
@@ -726,6 +795,7 @@ impl<'a> Cx<'a> {
         }
         let fi = match self.g.fns.get(&s) {
             Some(f) => f.clone(),
+            None if self.g.omitted.contains(&s) => return err(sp, format!("calls `{}`, which was omitted", s)),
             None => return err(sp, format!("call of `{}`, which is neither translated nor a known primitive", s)),
         };
         self.needs.union(fi.needs);
@@ -801,6 +871,9 @@ impl<'a> Cx<'a> {
                 };
                 let fi = match self.g.fns.get(&key) {
                     Some(f) => f.clone(),
+                    None if self.g.omitted.contains(&key) => {
+                        return err(sp, format!("calls `{}`, which was omitted", key))
+                    }
                     None => return err(sp, format!("method `{}` is not translated", key)),
                 };
                 self.needs.union(fi.needs);
